@@ -18,7 +18,7 @@ pub fn meta() -> Meta {
 decoder (header counts = entries found = section lengths + OPT, exactly one TYPE-41 record iff OPT is set, every RDATA decodes under \
 its schema consuming exactly RDLENGTH, no trailing bytes); then every writer configuration (Vec fresh/with capacity/pre-filled, \
 &mut [u8] and Cursor<&mut [u8]> of every capacity 0..=len+2 (sampled for long messages), Cursor<Vec> at offsets 0/2/k over empty and \
-pre-filled storage, Cursor<Box<[u8]>>, short-write writers returning Interrupted) must produce the same bytes in the written region, \
+pre-filled storage, Cursor<Box<[u8]>>, short-write writers returning Interrupted, BufWriter over a growable and over a fixed cursor - judged by what has reached the storage when the call returns) must produce the same bytes in the written region, \
 leave other bytes untouched, succeed when capacity >= len and return Err (no panic) when smaller. non-trivial = packet with at least \
 one record or question; distinct = hash of (model, configuration). Packets with the extended response code BADVERS and no EDNS data are walked the same way. A constructor family builds TXT values through each public constructor (try_from(&str), with_string, add_string, \
 with_char_string, try_from(HashMap)) from texts of 0..2100 bytes (every length next to a multiple of 254/255, ASCII and multi-byte), follows them with an A record and walks all four entry points' outputs",
@@ -181,6 +181,36 @@ fn run_cfg(pk: &Packet, compressed: bool, cfg: &str, k: usize, cap: usize) -> Ou
                 }
                 Ok(c.into_inner())
             }
+            (_, "buffered_vec") | (_, "buffered_vec_small") => {
+                // a buffering writer: what counts is what has reached the storage when the call returns (no flush of ours)
+                let bufcap = if cfg == "buffered_vec" { 70_000 } else { 7 };
+                let mut c = Cursor::new(vec![FILL; cap]);
+                c.set_position(k as u64);
+                let mut bw = std::io::BufWriter::with_capacity(bufcap, c);
+                if compressed {
+                    pk.write_compressed_to(&mut bw).map_err(|_| ())?;
+                } else {
+                    pk.write_to(&mut bw).map_err(|_| ())?;
+                }
+                // what is still buffered is discarded: it did not reach the storage during the call
+                let (inner, _pending) = bw.into_parts();
+                Ok(inner.into_inner())
+            }
+            (_, "buffered_slice") => {
+                let mut store = vec![FILL; k + cap];
+                let seen;
+                {
+                    let mut c = Cursor::new(&mut store[..]);
+                    c.set_position(k as u64);
+                    let mut bw = std::io::BufWriter::with_capacity(70_000, c);
+                    let r = if compressed { pk.write_compressed_to(&mut bw) } else { pk.write_to(&mut bw) };
+                    seen = bw.get_ref().get_ref().to_vec();
+                    // what is still buffered is discarded: it never reached the storage during the call
+                    let (_inner, _pending) = bw.into_parts();
+                    r.map_err(|_| ())?;
+                }
+                Ok(seen)
+            }
             (_, "failing") => {
                 // `cap` = number of bytes accepted before the injected fault
                 let mut w = FailingWriter { buf: Vec::new(), pos: 0, limit: cap };
@@ -332,6 +362,13 @@ pub fn check_one(ctx: &mut Ctx, family: &str, idx: u64, p: &PktM) {
                 }
             }
         }
+        for k in [0, 2] {
+            cfgs.push(("buffered_vec", k, k));
+            cfgs.push(("buffered_vec_small", k, k + len + 9));
+            for c in [len.saturating_sub(1), len, len + 3] {
+                cfgs.push(("buffered_slice", k, c));
+            }
+        }
         for k in [0, 2, kk] {
             cfgs.push(("cursor_vec", k, 0)); // empty storage (offset beyond the end pads with zeros)
             cfgs.push(("cursor_vec", k, k)); // storage exactly up to the start
@@ -349,7 +386,7 @@ pub fn check_one(ctx: &mut Ctx, family: &str, idx: u64, p: &PktM) {
             let label = format!("{}/{}", wname, cfg);
             ctx.case(nontrivial, ph ^ fnv(format!("{}{}{}{}", label, k, cap, compressed).as_bytes()));
             ctx.add(&format!("writer_runs_{}", label), 1);
-            let fixed = matches!(cfg, "slice" | "cursor_slice" | "cursor_box" | "failing");
+            let fixed = matches!(cfg, "slice" | "cursor_slice" | "cursor_box" | "failing" | "buffered_slice");
             let fits = !fixed || cap >= len;
             let case = || gen_case(family, idx, p, json!({"writer": label, "start_offset": k, "capacity": cap, "message_len": len}));
             match run_cfg(&lib, compressed, cfg, k, cap) {
@@ -378,7 +415,7 @@ pub fn check_one(ctx: &mut Ctx, family: &str, idx: u64, p: &PktM) {
                         continue;
                     }
                     // untouched bytes outside the region
-                    let before_ok = store[..k].iter().all(|b| *b == FILL) || (cfg == "cursor_vec" && cap < k) || (cfg == "short" && cap < k);
+                    let before_ok = store[..k].iter().all(|b| *b == FILL) || (matches!(cfg, "cursor_vec" | "buffered_vec" | "buffered_vec_small") && cap < k) || (cfg == "short" && cap < k);
                     let after_ok = store[k + len..].iter().all(|b| *b == FILL);
                     if !before_ok || !after_ok {
                         ctx.violation("writers-agree", &format!("writer-touched-outside:{}", label),
